@@ -23,7 +23,7 @@ SYNC_CALLS = {"cudaDeviceSynchronize", "cudaStreamSynchronize", "cudaEventSynchr
 ANNOTATION_CHOICES = ["", "ProfilerStep", "forward", "loss", "optimizer", "data_loading", "u_block_a", "u_block_b", "ProfilerStep#"]
 
 CP_OPTS = dict(steps=[0, 1, 2, 3, 3], w_launch=7, w_sync=3, w_op=4, w_rt=1, max_top=5, streams=3, second_thread=True,
-               event_sync=False, lead_op=False, ensure_kernel=False, kdurs=[1, 2, 4, 7, 12, 20, 30], first_op_children=True, annotation_weight=2, max_depth=4, cuda_events=True, align_ends=True, python_frames=True)
+               event_sync=False, lead_op=False, ensure_kernel=False, kdurs=[1, 2, 4, 7, 12, 20, 30], first_op_children=True, annotation_weight=2, max_depth=4, cuda_events=True, align_ends=True, python_frames=True, fractional_stamps=True)
 
 
 class Window:
